@@ -85,7 +85,7 @@ PROPS = {
     ),
     "C07": dict(
         harness="h_expm", sources=["expm/main.cpp"], level="exploration",
-        variants=dict(quick=[V("asan", 8, 0.4), V("opt", 8)], thorough=[V("asan", 8, 0.3), V("opt", 12), V("optavx", 4, 0.3)]),
+        variants=dict(quick=[V("asan", 8, 1.2), V("opt", 8, 3)], thorough=[V("asan", 8, 0.3), V("opt", 12), V("optavx", 4, 0.3)]),
         rule="n cycles 2..6, family cycles over 15 (anti-Hermitian, Hermitian, normal, dense, upper/lower triangular, strictly upper/lower, rank one, block diagonal, diagonal+small, "
              "diagonal, real rotation, diagonal plus one off-diagonal entry anywhere, bidiagonal), 1-norm from a mixture: straddling every theta threshold (0.015, 0.254, 0.95, 2.1, 4.25*2^s), uniform in the degree 7/9 band, log-uniform 1e-8..limit "
              "(1e3 normal families, 30 Hermitian, 50 others); each judged call preceded by 0-5 exponentials of other sizes, half re-evaluated after a different prefix; reference: "
@@ -110,7 +110,7 @@ PROPS = {
     ),
     "C17": dict(
         harness="h_solver", sources=SOLVER, level="exploration",
-        variants=dict(quick=[V("asan", 8, 0.3), V("opt", 8)], thorough=[V("asan", 8, 0.3), V("opt", 16)]),
+        variants=dict(quick=[V("asan", 8, 0.9), V("opt", 8, 3)], thorough=[V("asan", 8, 0.3), V("opt", 16)]),
         rule="nx = 2..130 exhaustively, then random nx up to 5000; for each nx a linear grid (ends over 20 decades, incl. a=0 and integers), a logarithmic grid (a>=1e-10, ratio up to 1e10) and a "
              "user grid (uniform, geometric, clustered, huge gaps, log-random steps). Grid predicates: node count, finite, non-decreasing, first node, last node within the ulp allowance, every "
              "node against the documented formula; user grid stored bitwise, unsorted/wrong-size rejected without change. Lookup: every node, node+-1ulp, midpoints, random points per "
@@ -122,7 +122,7 @@ PROPS = {
     ),
     "C05": dict(
         harness="h_solver", sources=SOLVER, level="exploration",
-        variants=dict(quick=[V("asan", 8, 0.3), V("opt", 8)], thorough=[V("asan", 8, 0.2), V("opt", 16)]),
+        variants=dict(quick=[V("asan", 8, 0.9), V("opt", 8, 3)], thorough=[V("asan", 8, 0.2), V("opt", 16)]),
         rule="each case: d cycles 2..6, nx 2..6, nrhos 1..3, grid linear / logarithmic / user supplied with clustered nodes, H0(x,irho) diagonal and different for every x and irho, "
              "0-3 history operations (evolve without numerics over up to 1e3, evolve with numerics, re-initialise with another start time, move) producing tau=t-t_ini; then: node form at "
              "every node (+ averaging overload with scale 1e300), all four GetExpectationValueD overloads and GetIntermediateState on every node, midpoint, node+-1ulp and a random point "
@@ -168,7 +168,7 @@ PROPS = {
     ),
     "C08": dict(
         harness="h_life", sources=LIFE, level="exploration",
-        variants=dict(quick=[V("asan", 8, 0.4), V("opt", 8)], thorough=[V("asan", 8, 0.3), V("opt", 8), V("optavx", 4, 0.5)]),
+        variants=dict(quick=[V("asan", 8, 1.2), V("opt", 8, 3)], thorough=[V("asan", 8, 0.3), V("opt", 8), V("optavx", 4, 0.5)]),
         rule="random histories of 6-45 operations over 4-8 vector slots and 2-3 user buffers (exact-size heap blocks, some deliberately misaligned), dimensions drawn from three values in 2..6 per "
              "history: construct (default, sized, list, external, copy, move, from an expression with lvalue/rvalue operands), destroy, copy/move assignment between every pair of slot kinds, "
              "T (=|+=|-=) expression over 19 expression shapes, SetBackingStore, element writes, ==, compound assignment; moved-from and consumed operands become 'unspecified' and then only "
@@ -182,7 +182,7 @@ PROPS = {
     ),
     "C15": dict(
         harness="h_life", sources=LIFE, level="exploration",
-        variants=dict(quick=[V("asan", 12, 0.5), V("optavx", 4)], thorough=[V("asan", 12, 0.5), V("optavx", 4), V("opt", 4), V("align", 4, 0.5)]),
+        variants=dict(quick=[V("asan", 12, 1.5), V("optavx", 4, 3)], thorough=[V("asan", 12, 0.5), V("optavx", 4), V("opt", 4), V("align", 4, 0.5)]),
         rule="the C08 interpreter with the wide catalogue: histories of 20-120 operations adding rotations (both forms), RotateToB0/B1, UTransform (both), UDaggerTransform, WeightedRotation (both), "
              "Real/Imag/Transpose, conversions to and from GSL matrices and component lists, GetEigenSystem, factories, evolution tables and both filters on exact-size heap tables, stream output, "
              "16 kinds of calls that end in a library exception, and solver objects (construct, grid, evolve, move-construct, move-assign onto a used solver, query incl. rejected queries, re-init, "
@@ -221,7 +221,7 @@ PROPS = {
     ),
     "C09": dict(
         harness="h_life", sources=LIFE, level="exploration", exhaustive=True,
-        variants=dict(quick=[V("asan", 8, 0.5), V("opt", 8), V("optavx", 4)], thorough=[V("asan", 12, 0.25), V("opt", 8), V("optavx", 8), V("align", 8, 0.5)]),
+        variants=dict(quick=[V("asan", 8, 1.5), V("opt", 8, 3), V("optavx", 4, 3)], thorough=[V("asan", 12, 0.25), V("opt", 8), V("optavx", 8), V("align", 8, 0.5)]),
         rule="the full cross product of the discrete axes is enumerated: 28 expression shapes (4 sum, 4 difference, 2 negation, 4 scalar-product, 3 commutator, 3 anticommutator, 2 Evolve(op,t), "
              "2 Evolve(table), 4 user element-wise: every combination of operand value categories, also those for which the library has no dedicated overload) x {=,+=,-=,construct} x target {empty, owned same d, owned other d, external same d, external other d} "
              "x alias {none, v is a, v is b, v is both, v and a different objects on one user buffer} x guarantee set {none, NoAlias, EqualSizes, both, +AlignedStorage} x d=2..6 = 70000 cells; "
